@@ -124,6 +124,9 @@ def info_of(f):
     info = {"site": site, "kind": parts[-1] if parts[0] not in ("cert", "ps") else "/".join(parts[1:]), "obligation": f.kind}
     if cond:
         info["cond"] = cond
+    # an extrapolation that disagrees with the plain widening computed on copies of the same two objects
+    if info["kind"] in ("upper", "exact", "below-limited") and "_extrapolation_assign/" in site:
+        info["class"] = "differs-from-plain-on-same-objects"
     return info
 
 
